@@ -729,8 +729,9 @@ def rule_l(ctx, out):
         elif renderable:
             out.bad(f"forves-pair-not-rendered:{name}", f"forves_format does not render the pair ({a} / {b}): every comparison through the adapter fails", where(f))
         else:
+            shown = str(got)[:60].replace(chr(10), ' | ')
             out.bad(f"forves-renders-a-pair-that-differs-outside-the-segments:{name}", f"forves_format renders the pair {a} / {b} as if the two blocks differed only "
-                    f"inside the segments it shows (`{str(got)[:60].replace(chr(10), " | ")}`): the external checker never sees the instruction that differs, and compare_forves "
+                    f"inside the segments it shows (`{shown}`): the external checker never sees the instruction that differs, and compare_forves "
                     f"answers \"true\" for distinguishable blocks", where(f))
 
 
